@@ -1,1 +1,222 @@
-pub fn main(_args: &[String]) -> i32 { eprintln!("not implemented yet"); 2 }
+//! C15 corpus driver: feed real-world Rust files (and truncations / mutations of them) through the REAL
+//! library entry point, one file per project, both modes, catching panics.
+//!
+//! usage: tth corpus --roots DIR[,DIR..] --work DIR --out FILE [--max-files N] [--truncate K] [--mutate K]
+//!                   [--seed S] [--threads T] [--command-prefix]
+//! Output: ndjson, one record per (file, variant, mode) that did NOT end in Ok/Err, plus a summary line on stdout.
+use serde_json::json;
+use std::io::Write;
+use std::path::{Path, PathBuf};
+use std::sync::atomic::{AtomicUsize, Ordering};
+use std::sync::{Arc, Mutex};
+use tauri_typegen::GenerateConfig;
+
+fn collect(root: &Path, out: &mut Vec<PathBuf>) {
+    let rd = match std::fs::read_dir(root) {
+        Ok(r) => r,
+        Err(_) => return,
+    };
+    let mut entries: Vec<_> = rd.filter_map(|e| e.ok()).map(|e| e.path()).collect();
+    entries.sort();
+    for p in entries {
+        if p.is_dir() {
+            collect(&p, out);
+        } else if p.extension().map(|e| e == "rs").unwrap_or(false) {
+            out.push(p);
+        }
+    }
+}
+
+struct Rng(u64);
+impl Rng {
+    fn next(&mut self) -> u64 {
+        self.0 ^= self.0 << 13;
+        self.0 ^= self.0 >> 7;
+        self.0 ^= self.0 << 17;
+        self.0
+    }
+}
+
+/// Run one project (a directory with src/) through generate_from_config; returns "ok" | "err" | "panic: .."
+fn run_one(project: &Path, out: &Path, mode: &str) -> String {
+    let cfg = GenerateConfig {
+        project_path: project.to_string_lossy().to_string(),
+        output_path: out.to_string_lossy().to_string(),
+        validation_library: mode.to_string(),
+        ..Default::default()
+    };
+    let r = std::panic::catch_unwind(|| tauri_typegen::generate_from_config(&cfg).map(|_| ()).map_err(|e| e.to_string()));
+    match r {
+        Ok(Ok(())) => "ok".to_string(),
+        Ok(Err(_)) => "err".to_string(),
+        Err(p) => {
+            let msg = if let Some(s) = p.downcast_ref::<String>() {
+                s.clone()
+            } else if let Some(s) = p.downcast_ref::<&str>() {
+                s.to_string()
+            } else {
+                "?".to_string()
+            };
+            format!("panic: {}", msg)
+        }
+    }
+}
+
+pub fn main(args: &[String]) -> i32 {
+    let mut roots: Vec<PathBuf> = vec![];
+    let mut work = PathBuf::from("corpus-work");
+    let mut out = PathBuf::from("corpus.ndjson");
+    let mut max_files = usize::MAX;
+    let mut truncate = 0usize;
+    let mut mutate = 0usize;
+    let mut seed = 1u64;
+    let mut threads = 8usize;
+    let mut i = 0;
+    while i < args.len() {
+        let v = args.get(i + 1).cloned().unwrap_or_default();
+        match args[i].as_str() {
+            "--roots" => roots = v.split(',').map(PathBuf::from).collect(),
+            "--work" => work = PathBuf::from(v),
+            "--out" => out = PathBuf::from(v),
+            "--max-files" => max_files = v.parse().unwrap_or(usize::MAX),
+            "--truncate" => truncate = v.parse().unwrap_or(0),
+            "--mutate" => mutate = v.parse().unwrap_or(0),
+            "--seed" => seed = v.parse().unwrap_or(1),
+            "--threads" => threads = v.parse().unwrap_or(8),
+            other => {
+                eprintln!("corpus: unknown arg {}", other);
+                return 2;
+            }
+        }
+        i += 2;
+    }
+    let mut files = vec![];
+    for r in &roots {
+        collect(r, &mut files);
+    }
+    // deterministic seeded selection
+    let mut rng = Rng(seed.wrapping_mul(0x9E3779B97F4A7C15) | 1);
+    if files.len() > max_files {
+        for k in (1..files.len()).rev() {
+            let j = (rng.next() % (k as u64 + 1)) as usize;
+            files.swap(k, j);
+        }
+        files.truncate(max_files);
+        files.sort();
+    }
+    let files = Arc::new(files);
+    let next = Arc::new(AtomicUsize::new(0));
+    let bad: Arc<Mutex<Vec<serde_json::Value>>> = Arc::new(Mutex::new(vec![]));
+    let runs = Arc::new(AtomicUsize::new(0));
+    let oks = Arc::new(AtomicUsize::new(0));
+    let errs = Arc::new(AtomicUsize::new(0));
+    // silence the default panic hook (thousands of files): the payload is captured by catch_unwind
+    std::panic::set_hook(Box::new(|_| {}));
+    let mut handles = vec![];
+    for t in 0..threads {
+        let files = files.clone();
+        let next = next.clone();
+        let bad = bad.clone();
+        let runs = runs.clone();
+        let oks = oks.clone();
+        let errs = errs.clone();
+        let work = work.join(format!("t{}", t));
+        handles.push(std::thread::spawn(move || {
+            let src = work.join("proj").join("src");
+            let outd = work.join("out");
+            let _ = std::fs::create_dir_all(&src);
+            let mut rng = Rng((seed + t as u64 + 1).wrapping_mul(0x2545F4914F6CDD1D) | 1);
+            loop {
+                let idx = next.fetch_add(1, Ordering::SeqCst);
+                if idx >= files.len() {
+                    break;
+                }
+                let path = &files[idx];
+                let text = match std::fs::read_to_string(path) {
+                    Ok(t) => t,
+                    Err(_) => continue, // not UTF-8: outside the property's quantifier
+                };
+                let mut variants: Vec<(String, String)> = vec![("whole".to_string(), text.clone())];
+                // make sure commands exist so that generation (not only analysis) runs: prepend one
+                variants.push(("with-command".to_string(), format!("#[tauri::command]\npub fn corpus_anchor() {{}}\n{}", text)));
+                let lines: Vec<&str> = text.lines().collect();
+                for k in 0..truncate {
+                    if lines.len() < 2 {
+                        break;
+                    }
+                    let cut = 1 + (rng.next() as usize) % (lines.len() - 1);
+                    let mut t = lines[..cut].join("\n");
+                    // also cut inside the last line at a char boundary
+                    if k % 2 == 1 {
+                        let l = lines[cut];
+                        let cs: Vec<char> = l.chars().collect();
+                        if !cs.is_empty() {
+                            let c = (rng.next() as usize) % cs.len();
+                            t.push('\n');
+                            t.extend(cs[..c].iter());
+                        }
+                    }
+                    variants.push((format!("truncated@{}", cut), format!("#[tauri::command]\npub fn corpus_anchor() {{}}\n{}", t)));
+                }
+                for _k in 0..mutate {
+                    // character-level mutation: delete / duplicate / replace one char with an interesting one
+                    let mut cs: Vec<char> = text.chars().collect();
+                    if cs.is_empty() {
+                        break;
+                    }
+                    let pos = (rng.next() as usize) % cs.len();
+                    let pool = ['"', '\'', '(', ')', '<', '>', ',', '#', 'é', '€', '😀', '\\', '{', '}', '[', ']', ':', ' '];
+                    match rng.next() % 3 {
+                        0 => {
+                            cs.remove(pos);
+                        }
+                        1 => {
+                            let c = cs[pos];
+                            cs.insert(pos, c);
+                        }
+                        _ => {
+                            cs[pos] = pool[(rng.next() as usize) % pool.len()];
+                        }
+                    }
+                    let t: String = cs.into_iter().collect();
+                    variants.push((format!("mutated@{}", pos), format!("#[tauri::command]\npub fn corpus_anchor() {{}}\n{}", t)));
+                }
+                for (vname, vtext) in variants {
+                    let f = src.join("lib.rs");
+                    if std::fs::write(&f, &vtext).is_err() {
+                        continue;
+                    }
+                    for mode in ["none", "zod"] {
+                        let _ = std::fs::remove_dir_all(&outd);
+                        let status = run_one(&work.join("proj"), &outd, mode);
+                        runs.fetch_add(1, Ordering::Relaxed);
+                        if status == "ok" {
+                            oks.fetch_add(1, Ordering::Relaxed);
+                        } else if status == "err" {
+                            errs.fetch_add(1, Ordering::Relaxed);
+                        } else {
+                            let keep = work.join(format!("bad-{}-{}.rs", idx, vname.replace('@', "_")));
+                            let _ = std::fs::write(&keep, &vtext);
+                            bad.lock().unwrap().push(json!({"file": path.to_string_lossy(), "variant": vname, "mode": mode,
+                                                           "status": status, "saved": keep.to_string_lossy()}));
+                        }
+                    }
+                }
+            }
+        }));
+    }
+    for h in handles {
+        let _ = h.join();
+    }
+    let bad = bad.lock().unwrap();
+    let mut w = std::fs::File::create(&out).unwrap();
+    for b in bad.iter() {
+        writeln!(w, "{}", b).unwrap();
+    }
+    println!(
+        "{}",
+        json!({"files": files.len(), "runs": runs.load(Ordering::Relaxed), "ok": oks.load(Ordering::Relaxed),
+               "err": errs.load(Ordering::Relaxed), "abnormal": bad.len()})
+    );
+    0
+}
